@@ -311,6 +311,106 @@ VERUS.append(dict(
         dict(name="semi_end_inclusive", item="get_semi_indices", find="if idx >= range.end {", replace="if idx > range.end {"),
     ],
 ))
+# ------------------------------------------------------------------------------------------
+# order-preserving outer (Right / Full) join index lists: append_probe_indices_in_order
+# ------------------------------------------------------------------------------------------
+VERUS.append(dict(
+    name="outer_join_index_lists",
+    uses="use vstd::prelude::*;\nuse std::ops::Range;\n",
+    prelude="prelude_outer.rs", proofs="proofs_outer.rs", witness="witness_outer.rs", rlimit=120, min_verified=2, twins=[],
+    std_specs=False,
+    items=[
+        dict(file=FU, path=["fn append_probe_indices_in_order"], ret="r", loop_count=3,
+             edits=[dict(rule="R3", find="build_indices: &PrimitiveArray<UInt64Type>,", replace="build_indices: &U64Arr,"),
+                    dict(rule="R3", find="probe_indices: &PrimitiveArray<UInt32Type>,", replace="probe_indices: &U32Arr,"),
+                    dict(rule="R3", find=") -> (PrimitiveArray<UInt64Type>, PrimitiveArray<UInt32Type>) {", replace=") -> (OptU64Arr, U32Arr) {"),
+                    dict(rule="R9", regex=r"debug_assert_eq!\(build_indices\.len\(\), probe_indices\.len\(\)\);", replace="", count=1),
+                    dict(rule="R1", regex=r"for \(build_index, probe_index\) in build_indices\s*\.values\(\)\s*\.into_iter\(\)\s*\.zip\(probe_indices\.values\(\)\)\s*\{",
+                         replace="let bvals_ = build_indices.values(); let pvals_ = probe_indices.values();\n    for k_ in 0..bvals_.len() {\n        let build_index = &bvals_[k_]; let probe_index = &pvals_[k_];", count=1),
+                    dict(rule="R3", find="prev_index = probe_index + 1;", replace="prev_index = *probe_index + 1;")],
+             contract="""    requires
+        build_indices.view().len() == probe_indices.view().len(), sorted32(probe_indices.view()),
+        range.start <= range.end, range.end <= u32::MAX,
+        forall|k: int| 0 <= k < probe_indices.view().len() ==> range.start <= (#[trigger] probe_indices.view()[k]) && probe_indices.view()[k] < range.end,
+    ensures
+        // probe rows of the range in order: a row without a match once, with a NULL build index; a matched row once per match,
+        // with its build index, in the order of the matches
+        r.1.view() == emit_p(probe_indices.view(), range.end as int, range.start as int, 0),
+        r.0.view() == emit_b(build_indices.view(), probe_indices.view(), range.end as int, range.start as int, 0),
+        // ... which means, row by row (lemma_emit_meaning): the probe rows never go backwards and stay in the range; every probe row
+        // of the range is present; a NULL build index only on a row without any match; every input pair present, nothing invented
+        emit_post(build_indices.view(), probe_indices.view(), range.end as int, range.start as int, 0, r.1.view(), r.0.view()),""",
+             loops={0: """
+        invariant
+            bvals_@ == build_indices.view(), pvals_@ == probe_indices.view(), bvals_@.len() == pvals_@.len(), sorted32(pvals_@),
+            range.start <= range.end, range.end <= u32::MAX,
+            forall|k: int| 0 <= k < pvals_@.len() ==> range.start <= (#[trigger] pvals_@[k]) && pvals_@[k] < range.end,
+            range.start <= prev_index <= range.end,
+            new_probe_indices.view() + emit_p(pvals_@, range.end as int, prev_index as int, k_ as int)
+                == emit_p(pvals_@, range.end as int, range.start as int, 0),
+            new_build_indices.view() + emit_b(bvals_@, pvals_@, range.end as int, prev_index as int, k_ as int)
+                == emit_b(bvals_@, pvals_@, range.end as int, range.start as int, 0),
+""", 1: """
+            invariant
+                *probe_index < range.end, range.end <= u32::MAX,
+                new_probe_indices.view() == np0 + gap_p(prev_index as int, if prev_index <= *probe_index { value as int } else { prev_index as int }),
+                new_build_indices.view() == nb0 + gap_b(prev_index as int, if prev_index <= *probe_index { value as int } else { prev_index as int }),
+""", 2: """
+        invariant
+            range.end <= u32::MAX, prev_index <= range.end,
+            new_probe_indices.view() == np1 + gap_p(prev_index as int, value as int),
+            new_build_indices.view() == nb1 + gap_b(prev_index as int, value as int),
+"""},
+             proofs=[
+                 dict(at="body_start", text="""
+    proof { lemma_emit_meaning(build_indices.view(), probe_indices.view(), range.end as int, range.start as int, 0); }"""),
+                 dict(at="loop_body_start:0", text="""
+        let ghost np_in = new_probe_indices.view(); let ghost nb_in = new_build_indices.view(); let ghost np_prev = prev_index;"""),
+                 dict(at="before_loop:1", text="""
+        let ghost np0 = new_probe_indices.view(); let ghost nb0 = new_build_indices.view();
+        proof {
+            assert(np0 + gap_p(prev_index as int, prev_index as int) =~= np0);
+            assert(nb0 + gap_b(prev_index as int, prev_index as int) =~= nb0);
+        }"""),
+                 dict(at="loop_body_end:1", text="""
+            proof {
+                assert(gap_p(prev_index as int, value + 1) =~= gap_p(prev_index as int, value as int).push(value));
+                assert(gap_b(prev_index as int, value + 1) =~= gap_b(prev_index as int, value as int).push(None::<u64>));
+            }"""),
+                 dict(at="loop_body_end:0", text="""
+        proof {
+            let pv = pvals_@; let bv = bvals_@; let k = k_ as int; let e = range.end as int;
+            let p = pv[k] as int; let prev0 = (prev_index as int);   // prev_index already advanced: prev0 == p + 1
+            // unfolding of the definition at pair k
+            let g_p = gap_p(np_prev as int, p); let g_b = gap_b(np_prev as int, p);
+            assert(emit_p(pv, e, np_prev as int, k) == g_p + seq![pv[k]] + emit_p(pv, e, p + 1, k + 1));
+            assert(emit_b(bv, pv, e, np_prev as int, k) == g_b + seq![Some(bv[k])] + emit_b(bv, pv, e, p + 1, k + 1));
+            assert(new_probe_indices.view() =~= np_in + g_p + seq![pv[k]]);
+            assert(new_build_indices.view() =~= nb_in + g_b + seq![Some(bv[k])]);
+            assert((np_in + g_p + seq![pv[k]]) + emit_p(pv, e, p + 1, k + 1) =~= np_in + (g_p + seq![pv[k]] + emit_p(pv, e, p + 1, k + 1)));
+            assert((nb_in + g_b + seq![Some(bv[k])]) + emit_b(bv, pv, e, p + 1, k + 1) =~= nb_in + (g_b + seq![Some(bv[k])] + emit_b(bv, pv, e, p + 1, k + 1)));
+        }"""),
+                 dict(at="before_loop:2", text="""
+    let ghost np1 = new_probe_indices.view(); let ghost nb1 = new_build_indices.view();
+    proof {
+        assert(np1 + gap_p(prev_index as int, prev_index as int) =~= np1);
+        assert(nb1 + gap_b(prev_index as int, prev_index as int) =~= nb1);
+    }"""),
+                 dict(at="loop_body_end:2", text="""
+        proof {
+            assert(gap_p(prev_index as int, value + 1) =~= gap_p(prev_index as int, value as int).push(value));
+            assert(gap_b(prev_index as int, value + 1) =~= gap_b(prev_index as int, value as int).push(None::<u64>));
+        }"""),
+             ]),
+    ],
+    mutants=[
+        dict(name="outer_gap_starts_one_late", item="append_probe_indices_in_order", find="for value in prev_index..*probe_index", replace="for value in prev_index + 1..*probe_index"),
+        dict(name="outer_prev_not_advanced", item="append_probe_indices_in_order", find="prev_index = *probe_index + 1;", replace="prev_index = *probe_index;"),
+        dict(name="outer_tail_dropped", item="append_probe_indices_in_order", find="for value in prev_index..range.end as u32", replace="for value in prev_index..prev_index"),
+        dict(name="outer_pair_gets_null_build", item="append_probe_indices_in_order", find="new_build_indices.append_value(*build_index);", replace="new_build_indices.append_null();"),
+        dict(name="outer_gap_row_gets_build_index", item="append_probe_indices_in_order", find="new_probe_indices.append_value(value);\n            new_build_indices.append_null();", replace="new_probe_indices.append_value(value);\n            new_build_indices.append_value(*build_index);"),
+    ],
+))
 KANI = []
 TRUSTED = ["Verus 0.2026.09.13 + bundled Z3", "global size_of usize == 8",
            "ASSUMED view of an Arrow PrimitiveArray as Seq<Option<u64>> (len / null_count / is_null / value_unchecked+as_ / iter) in prelude.rs",
@@ -319,9 +419,11 @@ TRUSTED = ["Verus 0.2026.09.13 + bundled Z3", "global size_of usize == 8",
 ASSUMPTIONS = ["build side has fewer than u32::MAX rows (checked by try_create_array_map before ArrayMap::try_new)",
                "probe batch rows <= u32::MAX, 1 <= limit <= usize::MAX/2, incoming offset valid (produced by an earlier call or (0, None))",
                "AsPrimitive<u64> is injective on each supported integer type (sign extension), so equal u64 images mean equal keys"]
-NOT_COVERED = ["every other join operator and join type of C05 (hash join stream, outer/mark emission around the index kernels, sort-merge, nested loop, symmetric hash, cross, piecewise merge)",
+NOT_COVERED = ["every other join operator and join type of C05 (hash join stream, mark emission, the emission logic around the index kernels, sort-merge, nested loop, symmetric hash, cross, piecewise merge)",
                "contain_keys (Arrow BooleanBuffer::collect_bool closure), the downcast_supported_integer! dispatch, estimate_memory_size, try_create_array_map's admission logic",
                "num_of_distinct_key (only shown not to overflow)"]
+TRUSTED += ["ASSUMED contracts of Arrow's UInt64Builder / UInt32Builder (append_value / append_null / finish) and null-free index array views (prelude_outer.rs); zip loop rewritten to an index loop (R1)"]
 TRUSTED += ["ASSUMED view of a null-free UInt32 index array (values / new) in prelude_idx.rs; get_anti_indices / get_semi_indices monomorphised to u32 (R3), debug assertions turned into the preconditions they state (R9)"]
+ASSUMPTIONS += ["append_probe_indices_in_order: build/probe index arrays of equal length, probe indices ascending and inside the range (as produced by the lookup), range.end <= u32::MAX"]
 ASSUMPTIONS += ["get_anti_indices / get_semi_indices: input indices ascending and without nulls (the functions' debug assertions), range.end <= u32::MAX (the `expect` in the code)"]
 EXPLANATION = "ArrayMap::try_new/fill_data proved to build, for EVERY key, a chain that lists exactly the build rows with that key in ascending order; lookup_and_get_indices proved to return, page by page, exactly the join of the probe column with the build column (NULL probes match nothing), for both representations (no duplicates / chained) and every resume offset."
